@@ -272,6 +272,15 @@ def run_requests(ctx, hbin, drv, mc, reqs, label, stats):
 
 # ----------------------------------------------------------------------------- main
 
+def regenerate():
+    """Regenerate Gen/X64*.lean and the harness dispatch table from /repo's current x64.rs (used by ./check setup;
+    run() does the same at its start)."""
+    os.makedirs(C.BUILD + "/tmp", exist_ok=True)
+    rep_path = os.path.join(C.BUILD, "tmp", "c07_translator_setup.json")
+    rc, out = C.sh(["python3", TRANSLATOR, "--report", rep_path], timeout=600)
+    if rc != 0:
+        raise RuntimeError("translator failed:\n" + out[-2000:])
+
 def run(ctx):
     os.makedirs(C.BUILD + "/tmp", exist_ok=True)
     # the kernel evaluations behind `decide +kernel` allocate and free a lot; mimalloc's default of purging freed pages
